@@ -552,8 +552,15 @@ func c06Run(s *c06Scn) (c06Obs, []Mon) {
 		rec.XReads = []c06XRead{}
 		curRec = rec
 		cache.rec = rec
+		claimReads := 0
 		st.Lag = func(k objKey, versions int) int {
 			if k.GK != cgk {
+				return 0
+			}
+			// the cache lags for the reconcile's first read of the claim; a later read of
+			// the same reconcile (none on the pinned tree) is served fresh: caches catch up
+			claimReads++
+			if claimReads > 1 {
 				return 0
 			}
 			back := rec.Lag
